@@ -1108,6 +1108,8 @@ func (tc *typechecker) binaryOp(expr1 ast.Expression, op ast.OperatorType, expr2
 			}
 		} else if !isOrdered(t1) {
 			return nil, fmt.Errorf("operator %s not defined on %s", op, t1.Type.Kind())
+		} else if !isOrdered(t2) {
+			return nil, fmt.Errorf("operator %s not defined on %s", op, t2.Type.Kind())
 		}
 		return untypedBoolTypeInfo, nil
 	}
